@@ -1030,6 +1030,9 @@ func (r *Runner) runQueries() {
 					// when it differs from the stored bindings the index is not consistent as read (C15)
 					m.evals["C15"]++
 					m.fail("C15", "bindings of service %d listed through the owner index for owner %d [%s] differ from the stored bindings [%s]", q.Svc, q.Addr, x.ans.Line, want.Line)
+					if !m.k5 {
+						m.fail("C18", "the owner-service scan (owner %d, service %d) returned [%s], its subject's records are [%s]", q.Addr, q.Svc, x.ans.Line, want.Line)
+					}
 				}
 			case !sameRecs(x.ans.Recs, want.Recs):
 				m.fail("C17", "records %s %s: same projection [%s] but the returned records differ from the stored ones (bytes or order)", x.iface, head, want.Line)
